@@ -16,6 +16,7 @@ Fixpoint received (ins : list tin) : bytes :=
   | [] => []
   | TBytes b :: r => b ++ received r
   | TPeerClose :: r => received r
+  | TAlert :: r => received r
   end.
 
 (* every prefix of the stream as it is seen by the engine, segment by segment *)
@@ -24,22 +25,26 @@ Fixpoint never_completes (acc : bytes) (ins : list tin) : Prop :=
   | [] => True
   | TBytes b :: r => completes (acc ++ b) = false /\ never_completes (acc ++ b) r
   | TPeerClose :: r => never_completes acc r
+  | TAlert :: r => never_completes acc r
   end.
+
+Lemma gone_no_out (a : bytes) r o : ~ In o (trun (mkT TGone a) r).
+Proof.
+  induction r as [|j r IHr]; intros Ho; [destruct Ho|].
+  cbn in Ho. destruct j; cbn in Ho; apply (IHr Ho).
+Qed.
 
 Lemma wait_no_route acc ins :
   never_completes acc ins ->
   forall o, In o (trun (mkT TWait acc) ins) -> o = ORelease.
 Proof.
   revert acc. induction ins as [|i r IH]; intros acc Hn o Ho; [destruct Ho|].
-  destruct i as [b|]; cbn in Ho, Hn.
+  destruct i as [b| |]; cbn in Ho, Hn.
   - destruct Hn as [Hc Hn]. destruct (fails (acc ++ b)) eqn:Ef.
-    + cbn in Ho. destruct Ho as [Ho|Ho]; [auto|].
-      clear -Ho. exfalso. revert Ho. generalize (acc ++ b). induction r as [|j r IHr]; intros a Ho; [destruct Ho|].
-      cbn in Ho. destruct j; cbn in Ho; apply (IHr a Ho).
+    + cbn in Ho. destruct Ho as [Ho|Ho]; [auto|]. exfalso. exact (gone_no_out _ _ _ Ho).
     + rewrite Hc in Ho. cbn in Ho. apply (IH (acc ++ b) Hn o Ho).
-  - destruct Ho as [Ho|Ho]; [auto|].
-    clear -Ho. exfalso. revert Ho. generalize acc. induction r as [|j r IHr]; intros a Ho; [destruct Ho|].
-    cbn in Ho. destruct j; cbn in Ho; apply (IHr a Ho).
+  - destruct Ho as [Ho|Ho]; [auto|]. exfalso. exact (gone_no_out _ _ _ Ho).
+  - destruct Ho as [Ho|Ho]; [auto|]. exfalso. exact (gone_no_out _ _ _ Ho).
 Qed.
 
 (* 1. a client that never completes the handshake (clear text, corrupted or partial records, nothing at all):
@@ -61,12 +66,13 @@ Theorem routed_only_after_encrypted ins : forall acc pre b post,
 Proof.
   induction ins as [|i r IH]; intros acc pre b post H.
   - destruct pre; discriminate.
-  - destruct i as [x|]; cbn in H.
+  - destruct i as [x| |]; cbn in H.
     + destruct (fails (acc ++ x)).
       * cbn in H. rewrite gone_silent in H by reflexivity. destruct pre as [|p [|q pre]]; discriminate.
       * destruct (completes (acc ++ x)).
         -- cbn in H. destruct pre as [|p pre]; [discriminate|]. injection H as -> _. left. reflexivity.
         -- cbn in H. apply (IH _ _ _ _ H).
+    + rewrite gone_silent in H by reflexivity. destruct pre as [|p [|q pre]]; discriminate.
     + rewrite gone_silent in H by reflexivity. destruct pre as [|p [|q pre]]; discriminate.
 Qed.
 
@@ -84,15 +90,33 @@ Fixpoint decrypt_all (acc : bytes) (ins : list tin) : list tin :=
   | [] => []
   | TBytes b :: r => TBytes (decrypt acc b) :: decrypt_all acc r
   | TPeerClose :: _ => [TPeerClose]
+  | TAlert :: r => decrypt_all acc r        (* has no counterpart on a plain connection and changes nothing *)
   end.
 
 Theorem established_as_plain acc ins :
   trun (mkT TEnc acc) ins = plain_run (decrypt_all acc ins).
 Proof.
   induction ins as [|i r IH]; [reflexivity|].
-  destruct i as [b|]; cbn.
+  destruct i as [b| |]; cbn.
   - f_equal. exact IH.
   - rewrite gone_silent by reflexivity. reflexivity.
+  - exact IH.
+Qed.
+
+(* 5. a TLS-level error that leaves the connection up (the peer's close_notify with the TCP connection kept open, a warning
+      alert): before the handshake is over it ends the connection, once; after it, it changes nothing - the request already
+      handed to the pipeline is answered on a connection that is still there, and later bytes are still delivered *)
+Theorem alert_before_handshake_releases acc r : trun (mkT TWait acc) (TAlert :: r) = [ORelease].
+Proof. cbn. rewrite gone_silent by reflexivity. reflexivity. Qed.
+
+Theorem alert_after_handshake_harmless acc pre post :
+  trun (mkT TEnc acc) (pre ++ TAlert :: post) = trun (mkT TEnc acc) (pre ++ post).
+Proof.
+  induction pre as [|i pre IH]; [reflexivity|].
+  rewrite <- !app_comm_cons. destruct i as [b| |]; cbn.
+  - f_equal. exact IH.
+  - rewrite !gone_silent by reflexivity. reflexivity.
+  - exact IH.
 Qed.
 
 End Engine.
